@@ -1015,7 +1015,7 @@ def tier_c(run, thorough):
                  'seeded stacks: 1-3 RDMs, 3-7 conditions, with / without ties, %d seeds; literal clause' % (40 if thorough else 12),
                  function='geodesic_transform')
     for seed in range(40 if thorough else 12):
-        bd.check(orc_geodesic, dict(seed=seed, n_rdm=1 + seed % 3, n_cond=3 + seed % 5, ties=bool(seed % 2),
+        bd.check(orc_geodesic, dict(seed=seed, n_rdm=1 + seed % 3, n_cond=(4, 5, 6, 7, 3)[seed % 5], ties=bool(seed % 2),
                                     measure=MEASURES[seed % len(MEASURES)], desc=DESC_KINDS[seed % len(DESC_KINDS)]),
                  'all-inputs', function='geodesic_transform')
     bd.done()
@@ -1054,7 +1054,7 @@ def tier_c(run, thorough):
     bds.append(bd)
 
     # ---- descriptors and measure names ---------------------------------------------------------------------------
-    bd = Bounded(run, 'C17/descriptors-measure', 'C17/transform.*/oracle/descriptors-and-measure-name',
+    bd = Bounded(run, 'C17/descriptors-measure', 'C17/rdm.transform/oracle/descriptors-and-measure-name',
                  'ALL 7 transforms x 7 source measure names (None, squared euclidean / mahalanobis, plain, already ranked, ...) x 4 '
                  'descriptor kinds (none, scalars+dict, list-typed with own index, numpy arrays) x (n_rdm, n_cond) in '
                  '{(1,3), (3,5)}; rank also with every tie method', exhaustive=True, function='rdm.transform')
@@ -1068,7 +1068,7 @@ def tier_c(run, thorough):
                                  tname, function=tname + '_transform' if tname != 'custom' else 'transform')
     bd.done()
     bds.append(bd)
-    bd = Bounded(run, 'C17/measure-updated', 'C17/transform.*/oracle/measure-name-updated',
+    bd = Bounded(run, 'C17/measure-updated', 'C17/rdm.transform/oracle/measure-name-updated',
                  'ALL 7 transforms x 7 source measure names', exhaustive=True, function='rdm.transform')
     for tname in TRANSFORMS:
         for measure in MEASURES:
